@@ -31,7 +31,10 @@ namespace Clipper2Lib {
       }
       if (std::abs(io_count) > 1) break;
     }
-    return io_count <= 0;
+    if (io_count != 0) return io_count < 0;
+    // undecided (eg every vertex of path2 lies ON path1), so test path2's midpoint
+    return PointInPolygon(GetBounds(path2).MidPoint(), path1) !=
+      PointInPolygonResult::IsOutside;
   }
 
   inline bool GetLocation(const Rect64& rec,
